@@ -9,7 +9,8 @@ LEAN_MODULES = ["Ecal.Props.C09"]
 
 RULE = ("one case = one schedule of the real pool under the hook scheduler (go/cmd/harness/c09sched.go): "
         "directed schedules (lost-wake-up windows after the empty Pop / after L.Lock / after the predicate check, "
-        "kill vs. wait, resize up/down during bursts, JoinAll after a burst, WaitAll while a task runs) x workers {1,2,4}; "
+        "kill vs. wait, resize up/down during bursts, resize while an earlier shrink is still carried out (over-kill / under-shoot / waiting shrink), "
+        "JoinAll after a burst, WaitAll while a task runs) x workers {1,2,4}; "
         "randomised schedules (seeded yield/sleep/park decisions at every park point, per-thread priorities), workers 1..16, "
         "programs of AddTask (single, burst, concurrent, background), SetWorkerCount up/down (wait or not), WaitAll, JoinAll; "
         "thorough: delay-bounded systematic enumeration for <=2 workers, <=3 tasks. Compared: the Go monitors "
@@ -30,7 +31,7 @@ ASSUMPTIONS = [
     "fairness (F1): a goroutine whose next step stays enabled is eventually scheduled; a goroutine blocked on a mutex released infinitely often eventually gets it",
     "termination (F2): every task's Run returns",
     "'eventually started' = safety (task_multiset) + no stuck state (no_stuck_task / resize_converges) + F1 + F2; the step from no-stuck-state to real time is not proved",
-    "SetWorkerCount results are judged for calls that are not issued while an earlier non-waiting resize-down is still being carried out (workerKill is computed from a possibly stale worker count)",
+    "resize_target is stated for SetWorkerCount calls made while no JoinAll is being carried out (no worker on the exit-when-drained path) and holds until the next resize / JoinAll starts",
 ]
 
 META = dict(
@@ -119,7 +120,12 @@ def run(ctx):
         ctx.log("LEAN FAILURES:", lres["failures"])
 
     ctx.log("go: building harness against", checklib.REPO)
-    binp = checklib.go_build(ctx)
+    # thorough: the harness (and the pool) is built with the race detector; a reported race ends the
+    # process inside the case (CRASH with the report) and is a violation
+    binp = checklib.go_build(ctx, race=thorough)
+    if thorough:
+        checklib.GOENV["GORACE"] = "halt_on_error=1"
+    cov["race_detector"] = thorough
     ctx.harness = binp
     cases, gores, stats, infos = checklib.run_cases(ctx, binp, "C09", shards=16,
                                                     budget_s=3000 if thorough else 600)
